@@ -281,6 +281,7 @@ func interiorOpts(rc s2.RegionCoverer, tr *testRegion) s2.RegionCoverer {
 
 func runC05(c *vkit.Collector, rng *vkit.Rng, budget int) {
 	corpus(c, rng)
+	corpusRect(c, rng)
 	regs := genRegions(c, rng, budget)
 	nconf := 3 + mini(budget-1, 3)
 	for ri, tr := range regs {
@@ -294,6 +295,8 @@ func runC05(c *vkit.Collector, rng *vkit.Rng, budget int) {
 		}
 		predicateSafety(c, rng, tr, 24*mini(budget, 4))
 	}
+	latticeFamily(c, rng, budget)
+	grazeFamily(c, rng, budget)
 	synthetic(c, rng, budget)
 	// heavy cases: 8 shards evaluate in parallel; deal the cases out by decreasing size so that the shards are balanced
 	const shards = 8
@@ -316,6 +319,17 @@ func corpus(c *vkit.Collector, rng *vkit.Rng) {
 	ctr := s2.PointFromCoords(0.325766071553077463107684, 0.298457980512092713176742, -0.897106069811991924112249)
 	tr := capRegion(rng, ctr, "corpus-1", float64(s1.ChordAngleFromAngle(s1.Angle(6.960887510911511e-06))))
 	observe(c, rng, tr, s2.RegionCoverer{MinLevel: 10, MaxLevel: 24, LevelMod: 3, MaxCells: -2600}, "corpus-1 "+tr.name, true)
+}
+
+// corpusRect: FIXED FINDING (38de577): Rect.IntersectsCell skipped every boundary test for a cell edge that
+// runs westward (longitude span built with IntervalFromEndpoints).  This rectangle enters face 0 only across
+// the top edge of the face; the witness (43.77 deg, 0) is in both.  Must pass under the generic kinds.
+func corpusRect(c *vkit.Collector, rng *vkit.Rng) {
+	tr := rectRegion(rng, 0.7426021925473859, 1.0553981633974483, -0.7696902001294993, 0.7696902001294993, "corpus-2")
+	w := s2.PointFromCoords(0.7220744105045508, 0, 0.6918153985670638)
+	covered := 0
+	grazeCheck(c, rng, tr, s2.CellFromCellID(s2.CellIDFromFace(0)), w, &covered, "corpus-2")
+	observe(c, rng, tr, s2.RegionCoverer{MinLevel: 0, MaxLevel: 3, LevelMod: 1, MaxCells: 2}, "corpus-2 "+tr.name, true)
 }
 
 func cfgJSON(rc s2.RegionCoverer) map[string]int {
